@@ -13,8 +13,8 @@ from vlib.case import Out, Sub, rng_from
 PROPERTY = "C16"
 TECHNIQUE = ("property-based testing (Hypothesis): write/parse round trips (save()/load(), FORCE_SETS, FORCE_CONSTANTS, hdf5, "
              "BORN) compared within the half-ulp of each printed format; sequences of saves in one process")
-RULE = ("Phonopy objects built from generated crystals (extended symbols such as Cl1, custom masses, magnetic moments), dataset "
-        "type 1 / type 2 (with energies) / none, force constants full | compact | none, NAC none | wang | gonze, calculator in "
+RULE = ("Phonopy objects built from generated crystals (extended symbols such as Cl1, custom masses, magnetic moments), diagonal and general (non-symmetric) supercell matrices, dataset "
+        "type 1 / type 2 (with energies) / displacements without forces / none, force constants full | compact | none, NAC none | wang | gonze, calculator in "
         "the 16 interfaces or None, settings dictionaries, compression off | xz; value magnitudes 1e-12..1e8 (classes counted). "
         "Always in a fresh empty temporary working directory. Non-trivial: >= 2 optional sections present. Distinct by spec hash.")
 ASSUMPTIONS = [
